@@ -473,13 +473,39 @@ def discharge_one(job):
     return res
 
 
+_REFUTED = None      # shared flags, one per obligation name (set before the pool forks)
+
+
+def _discharge_shared(job):
+    """an obligation is refuted as soon as one of its path instances is: the remaining instances of a name
+    that already has a counter-model are not sent through the slow stages again (their verdict is 'skipped',
+    which never counts as discharged).  A query shared by several names is skipped only if all are refuted."""
+    ids = job.get("name_ids") or []
+    if _REFUTED is not None and ids and all(_REFUTED[i] for i in ids):
+        return {"name": job["name"], "backend": "none", "verdict": "skipped", "secs": 0.0,
+                "reason": "another instance of this obligation already has a counter-model", "model": None}
+    res = discharge_one(job)
+    if _REFUTED is not None and res.get("verdict") in ("sat", "candidate"):
+        for i in ids:
+            _REFUTED[i] = 1
+    return res
+
+
 def discharge_all(jobs, procs=None):
     import multiprocessing as mp
+    global _REFUTED
     if not jobs:
         return []
     procs = procs or min(16, os.cpu_count() or 4)
-    if len(jobs) == 1 or procs == 1:
-        return [discharge_one(j) for j in jobs]
     ctx = mp.get_context("fork")
-    with ctx.Pool(min(procs, len(jobs))) as pool:
-        return pool.map(discharge_one, jobs, chunksize=1)
+    names = {}
+    for j in jobs:
+        j["name_ids"] = [names.setdefault(n, len(names)) for n in (j.get("names") or [j["name"]])]
+    _REFUTED = ctx.Array("b", max(1, len(names)), lock=False)
+    try:
+        if len(jobs) == 1 or procs == 1:
+            return [_discharge_shared(j) for j in jobs]
+        with ctx.Pool(min(procs, len(jobs))) as pool:
+            return pool.map(_discharge_shared, jobs, chunksize=1)
+    finally:
+        _REFUTED = None
